@@ -31,8 +31,8 @@ pub struct Cfg {
     /// hands the signal out in pieces of these sizes, cyclically (as an audio
     /// or SDR source does).
     pub pieces: Vec<usize>,
-    /// Make the k-th stream of the chain (in construction order) small (16
-    /// pages), all others the default 4 MB: back pressure at one point of the
+    /// Make the k-th stream of the chain (in construction order) small (one
+    /// page), all others the default 4 MB: back pressure at one point of the
     /// chain.
     pub small: Option<usize>,
 }
@@ -188,7 +188,11 @@ pub fn run_cfg(c: &Cfg) -> Result<Vec<Vec<u8>>, String> {
         for _ in 0..k {
             verif::push_stream_spec(verif::StreamSpec { size: dflt, offset: 0, prefill: 0 });
         }
-        verif::push_stream_spec(verif::StreamSpec { size: 16 * 4096, offset: 0, prefill: 0 });
+        // One page; the stream an FFT filter writes whole blocks into has
+        // to hold a block: 16 pages there.
+        let fft_dst = if c.baud == 1200 { 4 } else { 1 };
+        let pages = if k == fft_dst { 16 } else { 1 };
+        verif::push_stream_spec(verif::StreamSpec { size: pages * 4096, offset: 0, prefill: 0 });
     }
     verif::set_virtual_time(!c.mt);
     let mut g = runner(c.mt);
